@@ -347,6 +347,8 @@ def str_method(st, recv: V, name: str, args) -> V:
         return V(STR, ops.UF("str_" + name, z3.StringSort(), z3.StringSort(), z3.StringSort())(t, chars))
     if name in ("lower", "upper"):
         return V(STR, ops.UF("str_" + name, z3.StringSort(), z3.StringSort())(t))
+    if name == "join" and args[0].ty.kind in ("set", "setv", "dictkeys"):
+        return V(STR, ops.UF("str_join_set", z3.StringSort(), z3.IntSort(), z3.StringSort())(t, args[0].t if args[0].t is not None else z3.IntVal(0)))
     if name == "join":
         s = ops.as_seq(st, args[0])
         if s.t is None:
@@ -454,9 +456,7 @@ def _dict_del(se, a, kw):
 def _dict_update(se, a, kw):
     d, e = se.deref(a[0]), se.deref(a[1])
     kt, vt = d.ty.args
-    k = z3.Const("k!upd", sort_of(kt))
-    dom = z3.Lambda([k], z3.Or(z3.Select(d.items[0], k), z3.Select(e.items[0], k)))
-    val = z3.Lambda([k], z3.If(z3.Select(e.items[0], k), z3.Select(e.items[1], k), z3.Select(d.items[1], k)))
+    dom, val = ops.dict_merge(d.items[0], d.items[1], e.items[0], e.items[1], kt, vt)
     return ops.mk_dictv(kt, vt, dom, val)
 
 
@@ -538,3 +538,18 @@ def _len_of(se, a, kw):
 SPECFUNS["lc_index"] = _field_fun("index", "LoopContext")
 SPECFUNS["lc_parent"] = _field_fun("parent", "LoopContext")
 SPECFUNS["lc_iterable"] = _field_fun("_iterable", "LoopContext")
+
+
+@specfun("builtins_dict")
+def _builtins_dict(se, a, kw):
+    from .types import DICT, ANY
+    g = V(DICT(STR, ANY), z3.Const("G_builtins:__dict__", z3.IntSort()))
+    return se.deref(g)
+
+
+@specfun("dict_nonempty")
+def _dict_nonempty(se, a, kw):
+    d = a[0]
+    if d.ty.kind == "dictv":
+        raise Unsupported("dict_nonempty of a pure dict value")
+    return vbool(ops.truthy(se.st, d))
